@@ -172,4 +172,38 @@ theorem bcastTo_self {α : Type} (x : List α) (s : List Nat) (hx : x.length = n
   rw [bcastTo, this, map_fst_pairsTo s s (Nat.le_refl _), numel_padFrom, ← hx, List.take_length]
   simp [numel, flatMap_replicate_one]
 
+/-- The nested reference `bcast` is the element-by-element definition
+`out[idx] = x[bcIdx idx]` (row-major positions on both sides). -/
+theorem bcast_eq_bcastIdx {α : Type} : ∀ (ps : List (Nat × Nat)) (x : List α), Compat ps →
+    numel (ps.map (·.1)) ≤ x.length → (bcast ps x).map some = bcastIdx ps x
+  | [], x, _, hx => by
+    simp only [List.map_nil, numel, List.foldr_nil] at hx
+    cases x with
+    | nil => simp at hx
+    | cons a as => simp [bcast, bcastIdx, idxs, flat, bcIdx]
+  | (f, t) :: ps, x, hc, hx => by
+    have hcp : Compat ps := fun p hp => hc p (by simp [hp])
+    have hft : f = t ∨ f = 1 := hc (f, t) (by simp)
+    simp only [List.map_cons, numel_cons] at hx
+    rw [bcast_cons, List.map_flatMap]
+    simp only [bcastIdx, List.map_cons, idxs, List.map_flatMap, List.map_map]
+    apply flatMap_congr'
+    intro i hi
+    have hi' : i < t := List.mem_range.mp hi
+    have hle : (if f = 1 then 0 else i) * numel (ps.map (·.1)) + numel (ps.map (·.1)) ≤ x.length := by
+      rcases hft with rfl | rfl
+      · have h2 : (if f = 1 then 0 else i) * numel (ps.map (·.1)) + numel (ps.map (·.1)) ≤
+            f * numel (ps.map (·.1)) := by
+          calc (if f = 1 then 0 else i) * numel (ps.map (·.1)) + numel (ps.map (·.1))
+              = ((if f = 1 then 0 else i) + 1) * numel (ps.map (·.1)) := by rw [Nat.succ_mul]
+            _ ≤ f * numel (ps.map (·.1)) := Nat.mul_le_mul_right _ (by split <;> omega)
+        omega
+      · simp only [if_true, Nat.zero_mul, Nat.one_mul] at hx ⊢
+        omega
+    rw [bcast_eq_bcastIdx ps _ hcp (by rw [List.length_drop]; omega)]
+    simp only [bcastIdx]
+    apply List.map_congr_left
+    intro is _
+    simp [flat, bcIdx, List.getElem?_drop]
+
 end RtenVerif.InPlace
